@@ -92,8 +92,9 @@ func (p *Prog) findVBIEncoder() *vbiEncoder {
 				}
 			}
 			if stored == nil {
-				enc.why = "no byte is stored in the loop"
-				return enc
+				// the bytes may be written by a helper the loop calls: not the shape read off here — the evaluation
+				// (R15.6) decides such an encoder
+				continue
 			}
 			ph, isPhi := stored.(*ssa.Phi)
 			var low, withCont ssa.Value
@@ -434,6 +435,9 @@ func checkC15(p *Prog, c *Check) {
 			}
 			if kind == "" && calledOnlyFromWireEncoders(p, fn, 0) {
 				continue // a helper of a wire type's encoder (`putByte(data, i, b)`): judged with that encoder
+			}
+			if _, ok := p.bulkListWriter(fn); kind == "" && ok {
+				continue // a verbatim copy of a byte list, complete under its guard: no integer is encoded here
 			}
 			if kind == "" {
 				c.Unk("R15.4", qname(fn), p.Pos(fn.Pos()), "a function that is not the encoder of a wire type writes bytes of the frame itself: lengths and integers written here bypass the variable byte integer's encoder (R15.1, R15.3, R15.6 say nothing about them)")
